@@ -37,13 +37,13 @@ theorem info_unpackInfo (hn : d.items.length < d.bound) (hc : d.crc < 4294967296
   · have hn' : items.length < 256 := by simpa [Dev.bound] using hn
     have ht : List.take 5 (leBytes 1 items.length ++ (leBytes 4 crc ++ extra)) = leBytes 1 items.length ++ leBytes 4 crc := by
       rw [← List.append_assoc]; exact List.take_left' (by simp)
-    simp only [Dev.info, unpackInfo, List.drop_succ_cons, List.drop_zero, Bool.false_eq_true, if_false, ht, fmt_infoV1,
+    simp only [Dev.info, unpackInfo, Gen.C03.infoTakeV1, List.drop_succ_cons, List.drop_zero, Bool.false_eq_true, if_false, ht, fmt_infoV1,
       unpack_BI _ _ hn' hc]
     simp
   · have hn' : items.length < 65536 := by simpa [Dev.bound] using hn
     have ht : List.take 6 (leBytes 2 items.length ++ (leBytes 4 crc ++ extra)) = leBytes 2 items.length ++ leBytes 4 crc := by
       rw [← List.append_assoc]; exact List.take_left' (by simp)
-    simp only [Dev.info, unpackInfo, List.drop_succ_cons, List.drop_zero, if_true, ht, fmt_infoV2, unpack_HI _ _ hn' hc]
+    simp only [Dev.info, unpackInfo, Gen.C03.infoTakeV2, List.drop_succ_cons, List.drop_zero, if_true, ht, fmt_infoV2, unpack_HI _ _ hn' hc]
     simp
 
 theorem unpackIdent_le (v2 : Bool) (j : Nat) (rest : Bytes) (hj : j < (if v2 then 65536 else 256)) :
@@ -53,7 +53,7 @@ theorem unpackIdent_le (v2 : Bool) (j : Nat) (rest : Bytes) (hj : j < (if v2 the
     simp [unpackIdent, leBytes, Nat.mod_eq_of_lt hj']
   · have hj' : j < 65536 := by simpa using hj
     have ht : List.take 2 (leBytes 2 j ++ rest) = leBytes 2 j := List.take_left' (by simp)
-    simp only [unpackIdent, if_true, ht, fmt_identV2, unpack_H _ hj']
+    simp only [unpackIdent, Gen.C03.identTakeV2, if_true, ht, fmt_identV2, unpack_H _ hj']
     simp
 
 /-- a (duplicated, delayed) info reply read as an item reply: its "index" is the table size -/
@@ -70,11 +70,12 @@ theorem item_unpackIdent (j : Nat) (hj : j < d.bound) : unpackIdent d.v2 ((d.ite
   · exact unpackIdent_le false j _ (by simpa [Dev.bound] using hj)
   · exact unpackIdent_le true j _ (by simpa [Dev.bound] using hj)
 
-theorem item_body (j : Nat) : ((d.item j).drop 1).drop (if d.v2 then 2 else 1) = d.body j := by
+theorem item_body (j : Nat) :
+    ((d.item j).drop 1).drop (if d.v2 then Gen.C03.elemDropV2 else Gen.C03.elemDropV1) = d.body j := by
   obtain ⟨v2, items, crc, extra⟩ := d
   cases v2
-  · simp [Dev.item, leBytes]
-  · simp [Dev.item, leBytes]
+  · simp [Dev.item, leBytes, Gen.C03.elemDropV1]
+  · simp [Dev.item, leBytes, Gen.C03.elemDropV2]
 
 theorem infoRequest_eq : infoRequest d.v2 = .ok d.infoReq := by
   cases h : d.v2 <;> simp [infoRequest, Dev.infoReq, h, mkBytes, Gen.C03.tocCmdTocInfo, Gen.C03.tocCmdTocInfoV2] <;> rfl
@@ -134,7 +135,7 @@ theorem onPacket_info (f : Fetcher) (hv : f.v2 = d.v2) (hst : f.st = .info)
   have h0 : 0 < d.items.length → itemRequest d.v2 0 = .ok (d.itemReq 0) := fun h =>
     itemRequest_eq d 0 (by omega)
   unfold Fetcher.onPacket
-  simp only [ne_eq, not_true_eq_false, if_false, hst, hv, info_unpackInfo d hn hc]
+  simp only [Gen.C03.payloadDrop, ne_eq, not_true_eq_false, if_false, hst, hv, info_unpackInfo d hn hc]
   split
   · rename_i h; rw [h0 h]
   · rfl
@@ -144,7 +145,7 @@ theorem onPacket_element_info (f : Fetcher) (hv : f.v2 = d.v2) (hst : f.st = .el
     (hn : d.items.length < d.bound) (hreq : f.req < d.items.length) :
     f.onPacket dec 0 d.info = .ok ⟨f, [], false⟩ := by
   unfold Fetcher.onPacket
-  simp only [ne_eq, not_true_eq_false, if_false, hst, hv, info_unpackIdent d hn]
+  simp only [Gen.C03.payloadDrop, ne_eq, not_true_eq_false, if_false, hst, hv, info_unpackIdent d hn]
   have : d.items.length ≠ f.req := by omega
   simp [this]
 
@@ -153,7 +154,7 @@ theorem onPacket_element_stale (f : Fetcher) (hv : f.v2 = d.v2) (hst : f.st = .e
     (j : Nat) (hj : j < d.bound) (hne : j ≠ f.req) :
     f.onPacket dec 0 (d.item j) = .ok ⟨f, [], false⟩ := by
   unfold Fetcher.onPacket
-  simp only [ne_eq, not_true_eq_false, if_false, hst, hv, item_unpackIdent d j hj]
+  simp only [Gen.C03.payloadDrop, ne_eq, not_true_eq_false, if_false, hst, hv, item_unpackIdent d j hj]
   simp [hne]
 
 /-- GET_TOC_ELEMENT + the awaited item reply -/
@@ -164,7 +165,7 @@ theorem onPacket_element_awaited (f : Fetcher) (hv : f.v2 = d.v2) (hst : f.st = 
         .ok ⟨{ f with toc := f.toc.add e, req := f.req + 1 }, [d.itemReq (f.req + 1)], false⟩
       else .ok ⟨{ f with toc := f.toc.add e, st := .done }, [], true⟩ := by
   unfold Fetcher.onPacket
-  simp only [ne_eq, not_true_eq_false, if_false, hst, item_unpackIdent d f.req hreq, hv]
+  simp only [Gen.C03.payloadDrop, ne_eq, not_true_eq_false, if_false, hst, item_unpackIdent d f.req hreq, hv]
   have hb' := item_body d f.req
   simp only [hb', hdec]
   split
